@@ -64,16 +64,16 @@ class Gen:
             return "%d:%d" % (m, r.randrange(m))
         return "-"
 
-    def sub(self, in_body=False):
+    def sub(self, in_body=False, ty=None):
         r = self.rng
-        once = 1 if r.random() < (0.45 if self.focus in ("C04",) else 0.25) else 0
+        once = 1 if r.random() < (0.45 if self.focus in ("C04",) else (0.35 if self.focus == "C01" else 0.25)) else 0
         asy = 1 if r.random() < (0.65 if self.focus == "C06" else 0.25) else 0
         seq = 1 if r.random() < (0.7 if self.focus == "C07" else 0.2) else 0
         hid = r.randrange(12) if r.random() < 0.5 else r.choice([0, 1, 6, 7])
         body = r.randrange(self.nbodies)
         if seq and not asy:
             body = r.randrange(2)      # leaf bodies only: a sync Sequential handler must not re-enter itself
-        return "sub %d %d %d %d %d %s %d" % (self.ty(), hid, once, asy, seq, self.filt(), body)
+        return "sub %d %d %d %d %d %s %d" % (self.ty() if ty is None else ty, hid, once, asy, seq, self.filt(), body)
 
     def pub(self, in_body=False):
         r = self.rng
@@ -89,6 +89,10 @@ class Gen:
     def body_action(self, leaf):
         r = self.rng
         x = r.random()
+        if r.random() < 0.08:
+            # a net-zero edit of one type's registrations from inside a delivery: swap a handler for another
+            t = self.ty()
+            return "unsub %d %d ; %s" % (t, r.choice([0, 1, 6, 7, r.randrange(12)]), self.sub(True, ty=t))
         if x < 0.12:
             return "panic %d" % r.randrange(1, 9) if r.random() < (0.9 if self.focus in ("C05", "C07") else 0.5) else "count %d" % self.ty()
         if x < 0.30 and not leaf:
@@ -142,6 +146,14 @@ class Gen:
             leaf = b < 2
             acts = [self.body_action(leaf) for _ in range(r.randint(0, 4 if not leaf else 2))]
             lines.append("body %d = %s" % (b, " ; ".join(acts)))
+        if self.focus in ("C01", "C04", "C05") and r.random() < 0.2:
+            # a once handler whose body swaps one registration of its own type for another (net-zero edit of the
+            # registry while the publish that fires it is being delivered), placed among the random actions below
+            t = self.types[0]; ha, hb, hc = r.sample(range(12), 3); b = self.nbodies - 1
+            lines[-1] = "body %d = unsub %d %d ; sub %d %d 0 0 0 - 0" % (b, t, ha, t, hb)
+            pre = ["sub %d %d 0 0 0 - %d" % (t, ha, r.randrange(2)), "sub %d %d 1 0 0 - %d" % (t, hc, b)]
+            r.shuffle(pre)
+            lines += pre + ["pub %d %d 0 bg" % (t, r.randrange(12)), "count %d" % t, "pub %d %d 0 bg" % (t, r.randrange(12))]
         n = r.randint(4, 28)
         for i in range(n):
             x = r.random()
